@@ -258,10 +258,10 @@ pub fn near_valid(r: &mut Rng) -> (String, &'static str) {
 /// Does this opener contribute a level of one of the constructs whose parse time doubles per level
 /// (finding C18-F1)? Since 33df1c7 the parenthesised TYPE forms are parsed once per level — and with
 /// them the parenthesised or-patterns, whose time went into the type alternative tried first —
-/// except the process type `(@…` nested in receive position; the two term forms whose *unclosed*
-/// nests back-track (`@{ @{ @{ …`, `! [! [! [ …`) still double.
+/// and since 1d93429 so is the process type `(@…` nested in receive position; the two term forms
+/// whose *unclosed* nests back-track (`@{ @{ @{ …`, `! [! [! [ …`) still double.
 fn is_slow(open: &str) -> bool {
-    open.starts_with("(@") || open.starts_with("@{") || open.starts_with("! [")
+    open.starts_with("@{") || open.starts_with("! [")
 }
 
 /// G5 — bracket nesting up to depth 100 (the property's bound), closed, truncated or mismatched.
@@ -318,9 +318,8 @@ pub fn nesting(r: &mut Rng, paren_cap: usize) -> (String, usize) {
 /// Nesting beyond the hang threshold of the constructs of finding C18-F1 that still double per level.
 pub fn deep_parens(r: &mut Rng) -> String {
     let depth = 30 + r.usize(71);
-    match r.below(3) {
-        0 => format!("'t = {}'int{}", "(@".repeat(depth), ")".repeat(depth)),
-        1 => format!("{}1", "@{ ".repeat(depth)),
+    match r.below(2) {
+        0 => format!("{}1", "@{ ".repeat(depth)),
         _ => format!("{}1", "! [".repeat(depth)),
     }
 }
@@ -329,7 +328,11 @@ pub fn deep_parens(r: &mut Rng) -> String {
 /// (18 levels took 8 s): closed, unclosed, and in the three positions a type can stand in.
 pub fn deep_type_parens(r: &mut Rng) -> String {
     let depth = 30 + r.usize(71);
-    let forms: &[(&str, &str)] = &[("(", ")"), ("(#", " -> 'int)"), ("('bin | ", ")"), ("(x: ", ")"), ("P(x: ", ")"), ("(#'int -> ", ")"), ("('int & ", ")")];
+    let forms: &[(&str, &str)] = &[
+        ("(", ")"), ("(#", " -> 'int)"), ("('bin | ", ")"), ("(x: ", ")"), ("P(x: ", ")"), ("(#'int -> ", ")"), ("('int & ", ")"),
+        // process types, nested in the receive position (repaired 1d93429)
+        ("(@", ")"), ("(@", " -> 'int)"),
+    ];
     let uniform = r.chance(2, 3);
     let k0 = r.usize(forms.len());
     let (mut open, mut close) = (String::new(), String::new());
@@ -351,6 +354,50 @@ pub fn deep_type_parens(r: &mut Rng) -> String {
         3 => format!("{}x{} = 1", "(a | ".repeat(depth), ")".repeat(depth)),
         _ => format!("'t = {ty}"),
     }
+}
+
+/// G7 — generic functions calling generic functions (seeded trial C18-6: `unify` looped on a
+/// self-binding that only appears after resolution): 1–3 levels, every function generic over the SAME
+/// 2–3 type-parameter names, parameters that are bare variables or unions mentioning a variable,
+/// each level handing its arguments on in a PERMUTED order, a final call with int / binary values.
+/// Most instances are well typed (the unions absorb the values), the rest must be compile errors.
+pub fn generic_calls(r: &mut Rng) -> (String, &'static str) {
+    let names: &[&str] = if r.chance(1, 5) { &["t", "u", "v"] } else { &["a", "b", "c"] };
+    let nvars = 2 + r.usize(2);
+    let vars = &names[..nvars];
+    let arity = nvars + r.usize(2);
+    let levels = 1 + r.usize(3);
+    let header = format!("#<{}>", vars.iter().map(|v| format!("'{v}")).collect::<Vec<_>>().join(", "));
+    let mut stmts = vec![];
+    for l in 0..levels {
+        let params: Vec<String> = (0..arity)
+            .map(|p| {
+                let v = if p < nvars && r.chance(3, 4) { vars[p] } else { vars[r.usize(nvars)] };
+                match if p < nvars { r.below(4) } else { 2 + r.below(5) } {
+                    0..=2 => format!("'{v}"),
+                    3 => format!("'{v} | 'bin"),
+                    4 => format!("'{v} | 'bin | 'int"),
+                    5 => "'int".to_string(),
+                    _ => format!("'{v} | 'int"),
+                }
+            })
+            .collect();
+        let body = if l == 0 {
+            format!("{{ ${} }}", r.usize(arity))
+        } else {
+            let mut perm: Vec<usize> = (0..arity).collect();
+            match r.below(4) {
+                0 => {}                                   // straight through
+                1 => perm.swap(0, 1),                     // the first two crosswise
+                _ => r.shuffle(&mut perm),
+            }
+            format!("{{ [{}] f{} }}", perm.iter().map(|i| format!("${i}")).collect::<Vec<_>>().join(", "), l - 1)
+        };
+        stmts.push(format!("f{l} = {header}[{}] {body}", params.join(", ")));
+    }
+    let vals: Vec<&str> = (0..arity).map(|_| *r.pick(&["1", "0x00", "0x01", "7", "0xff"])).collect();
+    stmts.push(format!("[{}] f{}", vals.join(", "), levels - 1));
+    (stmts.join(if r.chance(1, 2) { ", " } else { "\n" }), "generic-calls")
 }
 
 /// Numbers at and beyond the machine-integer boundaries, as decimal text.
